@@ -204,8 +204,8 @@ func (f *File) register(path string) string {
 		alias = true
 	}
 
-	// Only add a prefix if the name is an alias
-	if f.PackagePrefix != "" && alias {
+	// Only add a prefix if the name is an alias (a dot-import has no name to prefix)
+	if f.PackagePrefix != "" && alias && unique != "." {
 		unique = f.PackagePrefix + "_" + unique
 	}
 
